@@ -119,7 +119,7 @@ def make_handler(ls):
         tag = f'{ls.qualname}#loop{ls.ordinal}'
         # 1. init
         g = ls.inv(L(frame, entry))
-        r, m = c.valid(g)
+        r, m = c.valid(g, final=True)
         c.side_obligations.append((f'loop-init:{tag}', r, m))
         # 2. havoc
         names = sorted(assigned_names(node.body) - set(ls.keep))
@@ -156,7 +156,7 @@ def make_handler(ls):
                 writes = interp.write_log if isinstance(interp.write_log, list) else []
                 interp.write_log = log_before
             g2 = ls.inv(L(frame, entry))
-            r, m = c.valid(g2)
+            r, m = c.valid(g2, final=True)
             if r != 'unsat':
                 c.side_obligations.append((f'loop-preserved:{tag}', r, m))
             else:
